@@ -211,17 +211,19 @@ impl<Db: Database> StorageManager<Db> {
             ))),
         }?;
 
-        // update the cache
-        if let Some(cache) = &self.cache {
-            cache.batch_put(&records).await;
-        }
-
         // Write to the database
         self.tic_toc(
             METRIC_WRITE_TIME,
-            self.db.batch_set(records, DbSetState::TransactionCommit),
+            self.db
+                .batch_set(records.clone(), DbSetState::TransactionCommit),
         )
         .await?;
+
+        // update the cache, now that the database has accepted the records (a rejected write
+        // must not leave records in the cache which the database does not hold)
+        if let Some(cache) = &self.cache {
+            cache.batch_put(&records).await;
+        }
         self.increment_metric(METRIC_BATCH_SET);
         Ok(num_records as u64)
     }
@@ -264,13 +266,14 @@ impl<Db: Database> StorageManager<Db> {
             return Ok(());
         }
 
-        // update the cache
+        // write to the database
+        self.tic_toc(METRIC_WRITE_TIME, self.db.set(record.clone()))
+            .await?;
+
+        // update the cache, now that the database has accepted the record
         if let Some(cache) = &self.cache {
             cache.put(&record).await;
         }
-
-        // write to the database
-        self.tic_toc(METRIC_WRITE_TIME, self.db.set(record)).await?;
         self.increment_metric(METRIC_SET);
         Ok(())
     }
@@ -288,17 +291,17 @@ impl<Db: Database> StorageManager<Db> {
             return Ok(());
         }
 
-        // update the cache
-        if let Some(cache) = &self.cache {
-            cache.batch_put(&records).await;
-        }
-
         // Write to the database
         self.tic_toc(
             METRIC_WRITE_TIME,
-            self.db.batch_set(records, DbSetState::General),
+            self.db.batch_set(records.clone(), DbSetState::General),
         )
         .await?;
+
+        // update the cache, now that the database has accepted the records
+        if let Some(cache) = &self.cache {
+            cache.batch_put(&records).await;
+        }
         self.increment_metric(METRIC_BATCH_SET);
         Ok(())
     }
